@@ -200,7 +200,7 @@ PROPS = {
         timeout={"quick": 900, "thorough": 3400},
     ),
     "C19": dict(
-        props_files=["GoHeader/Props/C19.lean"], gen=["isExpired", "isRecent"], block=True,
+        props_files=["GoHeader/Props/C19.lean", "GoHeader/Props/C19Subjective.lean"], gen=["isExpired", "isRecent"], block=True,
         canon=lambda b: "\n".join([re.sub(r"\b(now|t1)=\S+", "", l) for l in b.split("\n") if l.startswith(("op ", "case ", "C19"))]),
         nontrivial=lambda b: b.count("op head") >= 2 or "kind=flight" in b,
         rule="real Syncer.Head over a real Store and a scripted getter with a request log; histories of head calls (peers answering fresh / stale / expired / failing / soft-failing heads, with and without TrustedHead), gossip arrivals and "
@@ -251,7 +251,7 @@ PROPS = {
         timeout={"quick": 600, "thorough": 3000},
     ),
     "C07": dict(
-        props_files=["GoHeader/Props/C07.lean"], gen=["rangeAmount", "finished"], block=True,
+        props_files=["GoHeader/Props/C07.lean", "GoHeader/Props/C07Ranges.lean"], gen=["rangeAmount", "finished"], block=True,
         canon=lambda b: "\n".join(l for l in b.split("\n") if l.startswith(("op ", "case "))),
         nontrivial=lambda b: b.count("op gossip") >= 2,
         rule="as C03 with valid heads only: adjacent / skipping / bursts, getter cutting ranges into prefixes of every length and finite runs of errors; after each accepted head with an error-free getter the Store head must equal the target, "
